@@ -183,7 +183,9 @@ def check_C02(ctx):
         r = assume_model(ctx, 'Div2exp', {'W': W, 'N': N, 'CMAX': CM, 'Variant': '"ok"'}, name=f'Div2exp-W{W}-N{N}', timeout=3000)
         ctx.model_must_hold(r, what='(limb-level cfdiv_q/tdiv_q/tdiv_r/cfdiv_r _2exp: shift, strip, rounding carry, two\'s complement remainder)')
     ctx.validate(ctx.run_driver(ctx.build('default'), 'corners_z', shards=16, extra='funs=mpz_tdiv_q:mpz_tdiv_r:mpz_fdiv_q:mpz_fdiv_r:mpz_cdiv_q:mpz_cdiv_r:mpz_mod:mpz_tdiv_qr:mpz_divexact', timeout=900))
-    trace_drivers(ctx, [('c02_tdiv', 16, 1200), ('c02_div1', 8, 600), ('c02_mpz', 16, 900)], pure_drivers=['c02_tdiv', 'c02_div1', 'c02_mpz'])
+    # the internal division kernels called directly, each against the contract its own source states (SemK2.tla)
+    trace_drivers(ctx, [('c02_tdiv', 16, 1200), ('c02_div1', 8, 600), ('c02_mpz', 16, 900), ('k2_sbdc', 8, 900), ('k2_inv', 8, 900), ('k2_bdiv', 8, 900), ('k2_div1', 8, 900), ('k2_divis', 2, 600)],
+                  pure_drivers=['c02_tdiv', 'c02_div1', 'c02_mpz', 'k2_div1'])
     return ctx.finish('model_checking',
         rule='R2: UdivPreinv = every normalised two-limb divisor and every admissible three-limb numerator at word widths 3..5 bits; SbDivQr = every normalised '
              'divisor and dividend of the stated limb counts at limb base 4/8 through the transcribed loop (special case q=B-1, add-back); DivRound = the floor/ceiling adjustments for every n,d in range; Div2exp = the _2exp family at limb level (every u of up to N limbs of W bits, every count). R3/R1: tdiv_qr/tdiv_q/sb_div_qr/divrem '
@@ -246,7 +248,17 @@ def check_C04(ctx):
     # rationals, floats, random states, strings and streams (valid and invalid input) under the same heap accounting
     for d, shards in [('c04_limbs', 8), ('c12', 4), ('c13', 4), ('c13s', 4), ('c19_hist', 4), ('c06_misc', 2), ('c06_mpz', 4), ('c17_stream', 8), ('c18_misc', 2)]:
         paths += ctx.run_driver(b, d, shards=shards, timeout=900, tier='quick')
+    # fence mode: every heap block between two inaccessible pages, alternately flush with the low or the high one: a read or write one limb
+    # outside a block the library owns becomes a crash event
+    for d, shards in [('hist', 8), ('alias', 8), ('c04_limbs', 4), ('c06_mpz', 4)]:
+        paths += ctx.run_driver(b, d, shards=shards, timeout=900, tier='quick', env={'HX_FENCE': '1'}, tag='-fence')
     ctx.validate(paths)
+    if not q:
+        # the same with the temporaries of the library on the heap as well (--enable-alloca=malloc-reentrant): TMP blocks are fenced too
+        br = ctx.build('alloca-reentrant'); fp = []
+        for d, shards in [('hist', 8), ('c02_tdiv', 8), ('c01_mul1', 4), ('c01_mpz', 4), ('c07_mpz', 8), ('c08_powm', 8), ('k2_sbdc', 4), ('k2_inv', 4), ('k2_bdiv', 4), ('c06_mpz', 4), ('c09_mpz', 4)]:
+            fp += ctx.run_driver(br, d, shards=shards, timeout=1500, tier='quick', env={'HX_FENCE': '1'}, tag='-fence-heaptmp')
+        ctx.validate(fp)
     if not q:
         # auxiliary observation channel for over-READS (invisible to the specification): the same replays on an AddressSanitizer build
         from verif import sh
